@@ -259,7 +259,11 @@ func (fr *Frame) boundsCheck(st *State, idx, n *Term, what string) {
 	F := fr.v.F
 	g := F.And(F.Le(F.I64(0), idx), F.Lt(idx, n))
 	if !g.IsTrue() {
-		fr.oblige(st, "bounds:"+what, g, fmt.Sprintf("0 <= index < length at %s", fr.v.pos(fr.curPos)))
+		if !fr.v.allowIndexPanic {
+			fr.oblige(st, "bounds:"+what, g, fmt.Sprintf("0 <= index < length at %s", fr.v.pos(fr.curPos)))
+		}
+		// ("option index-panics-allowed": an out-of-range index is a panic outside the contract; the path continues
+		// in range)
 		st.pc = F.And(st.pc, g)
 	}
 }
